@@ -6,7 +6,10 @@ reg("C03", "every offered covariance model is a valid positive-definite model",
          "ratios 0.2-5, 1 or 3 rotation angles, 1-3 summed structures, the construction route (Model::createFromParam / "
          "CovAniso setters / CovAniso::create*), and a point set (grid, grid along the rotated axes, random, clustered, "
          "collinear; spacing 0.02-5 ranges; n*nvar <= 72, thorough <= 360; every 4th draw is one variable on a grid along the "
-         "rotated axes with a mesh of 0.4-1.6 or 0.1-0.5 ranges, every 3rd draw adds a pair of points 1e-7..1e-3 ranges apart). In-domain = CovFactory::getCovList contains "
+         "rotated axes with a mesh of 0.4-1.6 or 0.1-0.5 ranges, every 3rd draw adds a pair of points 1e-7..1e-3 ranges apart); "
+         "each rotation angle is, with probability 0.35, one of the exact values 0/90/180/270/360/450/-90/-180/-270 (the "
+         "library special-cases 0, 90, 180, 270), else generic; the matrix builders observed are evalCovMatrix[Symmetric] "
+         "and evalCovMatrix[Symmetric]Optim, full and per requested variable (ivar0, jvar0). In-domain = CovFactory::getCovList contains "
          "the name and CovAniso::isConsistent(); out-of-domain pairs are requested through the public factories and must "
          "be refused or pass the same checks; sphere-only structures must not be in-domain. distinct = distinct "
          "(structure, ndim, nvar, parameter class, layout, number of structures, route) with at least one oracle evaluated",
@@ -14,11 +17,11 @@ reg("C03", "every offered covariance model is a valid positive-definite model",
     require=dict(distinct=400,
                  oracles=dict(quick={"pd": 800, "cpd": 250, "closed-form": 500, "closed-form-axis": 2000,
                                      "closed-form-incr": 200, "vario-mode": 1200, "sym-rect": 1200, "bound": 800,
-                                     "support-out": 1500, "range-axis": 250, "gate-sphere": 200, "model-eval": 1200},
+                                     "support-out": 1500, "range-axis": 250, "gate-sphere": 200, "model-eval": 1200, "optim-sym": 1200, "optim-block": 1500},
                               thorough={"pd": 6000, "cpd": 3000, "closed-form": 4000, "closed-form-axis": 16000,
                                         "closed-form-incr": 2000, "vario-mode": 9000, "sym-rect": 9000,
                                         "bound": 6000, "support-out": 9000, "range-axis": 1800,
-                                        "gate-sphere": 1500, "model-eval": 9000})),
+                                        "gate-sphere": 1500, "model-eval": 9000, "optim-sym": 9000, "optim-block": 12000})),
     assumptions=["eigenvalues by long-double Jacobi (ref_linalg), tolerance 1e3*N*eps*lambda_max",
                  "closed forms as published (ref_cov.hpp); the factor range/scale is read from getScadef()",
                  "positive definiteness is refutable by sampling, not provable"])
